@@ -66,7 +66,9 @@ Definition ascii_bytes (l : list Z) : bytes := map z2b l.
 Definition name_ssh_rsa : bytes := ascii_bytes [115; 115; 104; 45; 114; 115; 97].
 Definition name_ssh_dss : bytes := ascii_bytes [115; 115; 104; 45; 100; 115; 115].
 Definition name_ssh_ed25519 : bytes := ascii_bytes [115; 115; 104; 45; 101; 100; 50; 53; 53; 49; 57].
-Definition enc_rsa_blob (e n : Z) : bytes := enc_string name_ssh_rsa ++ enc_mpint e ++ enc_mpint n.
+(* RFC 4253 6.6 / RFC 8332: the blob of an RSA key under any key-type name is string name, mpint e, mpint n *)
+Definition enc_rsa_blob_named (name : bytes) (e n : Z) : bytes := enc_string name ++ enc_mpint e ++ enc_mpint n.
+Definition enc_rsa_blob (e n : Z) : bytes := enc_rsa_blob_named name_ssh_rsa e n.
 Definition enc_dss_blob (p q g y : Z) : bytes := enc_string name_ssh_dss ++ enc_mpint p ++ enc_mpint q ++ enc_mpint g ++ enc_mpint y.
 Definition enc_ed25519_blob (k : bytes) : bytes := enc_string name_ssh_ed25519 ++ enc_string k.
 
